@@ -37,9 +37,11 @@ type Config struct {
 	// stays asleep until a transition on the same object (or on an unlabelled one) is executed; an execution in which every
 	// enabled thread is asleep is redundant and is cut (Outcome.Pruned).
 	SleepSets bool
-	MaxSteps  int  // step cap per execution (0 = 100000); exceeding it ends the execution with Outcome.StepLimit
-	Trace     bool // record the step log
-	Watchdog  time.Duration
+	// HB turns on happens-before race detection (hb.go): Outcome.Races lists the unordered conflicting field accesses.
+	HB       bool
+	MaxSteps int  // step cap per execution (0 = 100000); exceeding it ends the execution with Outcome.StepLimit
+	Trace    bool // record the step log
+	Watchdog time.Duration
 }
 
 // Step is one entry of the trace.
@@ -71,6 +73,11 @@ type Outcome struct {
 	// ChoiceSteps[i] is the number of steps taken when the i-th choice was made (lets the explorer tell the steps an
 	// execution shares with the prefix it replays from the steps that are new).
 	ChoiceSteps []int
+	// Races: data races found by the happens-before detector in this execution (Config.HB); HBAccesses / HBEdges count the
+	// field accesses checked and the acquire edges applied.
+	Races      []Race
+	HBAccesses int
+	HBEdges    int
 }
 
 type thread struct {
@@ -109,6 +116,7 @@ type sched struct {
 	noteSeq             int64
 	notes               map[any]int64
 	live                int
+	hb                  *hbState
 }
 
 var (
@@ -136,6 +144,9 @@ func Run(cfg Config, body func()) Outcome {
 	mu.Lock()
 	defer mu.Unlock()
 	sc := &sched{cfg: cfg, budget: cfg.Budget, done: make(chan struct{}), notes: map[any]int64{}}
+	if cfg.HB {
+		sc.hb = newHB()
+	}
 	s = sc
 	vtime.ResetClock()
 	vtime.SleepHook = sleep
@@ -143,9 +154,9 @@ func Run(cfg Config, body func()) Outcome {
 	vtime.OnFire = func() { sc.gen++ }
 	vtime.GoHook = func(f func()) {
 		sc.gen++
-		sc.newThread(fmt.Sprintf("timerfunc%d", len(sc.threads)), f, true) // becomes runnable; started when first picked
+		sc.newThread(fmt.Sprintf("timerfunc%d", len(sc.threads)), f, true, nil) // becomes runnable; started when first picked
 	}
-	t := sc.newThread("main", body, false)
+	t := sc.newThread("main", body, false, nil)
 	sc.cur = t
 	t.resume <- struct{}{}
 	wd := time.NewTimer(cfg.Watchdog)
@@ -180,6 +191,9 @@ func Run(cfg Config, body func()) Outcome {
 	sc.out.Threads = len(sc.threads)
 	sc.out.Spent = cfg.Budget - sc.budget
 	sc.out.VirtualNs = int64(vtime.Elapsed())
+	if sc.hb != nil {
+		sc.out.Races, sc.out.HBAccesses, sc.out.HBEdges = sc.hb.result(), sc.hb.accesses, sc.hb.edges
+	}
 	s = nil
 	vtime.SleepHook = nil
 	vtime.OnTimer = nil
@@ -188,9 +202,14 @@ func Run(cfg Config, body func()) Outcome {
 	return sc.out
 }
 
-func (sc *sched) newThread(name string, f func(), system bool) *thread {
+// newThread: parent is the thread whose go statement (or Spawn) creates the new one; nil for the main thread and for
+// threads created by a timer (they start with the join of all clocks).
+func (sc *sched) newThread(name string, f func(), system bool, parent *thread) *thread {
 	t := &thread{id: len(sc.threads), name: name, resume: make(chan struct{}, 1), exited: make(chan struct{}), system: system}
 	sc.threads = append(sc.threads, t)
+	if sc.hb != nil {
+		sc.hb.fork(parent, t)
+	}
 	sc.live++
 	go func() {
 		defer close(t.exited)
@@ -216,6 +235,9 @@ func (sc *sched) newThread(name string, f func(), system bool) *thread {
 				return
 			}
 			// normal end of thread: hand over
+			if sc.hb != nil {
+				sc.hb.flush(t, sc)
+			}
 			t.state = stDone
 			sc.live--
 			sc.gen++ // a thread's deferred calls often cancel contexts / close channels others are waiting on
@@ -537,16 +559,28 @@ func pointWhen(label string, cond func() bool, wakeAtNs int64, harness bool, obj
 	sc.step(t, label)
 	sc.yield(t, label)
 	t.state, t.cond, t.wakeAt = stRunnable, nil, 0
+	if harness {
+		HBAcquireAll() // what the harness waited for has happened: its cause is ordered before what the harness does next
+	}
 }
 
 // Block suspends the running thread until cond() holds or virtual time reaches wakeAtNs (0 = no deadline); if cond()
 // holds already it returns at once without a scheduling point (harness waits).
 // cond is evaluated by the scheduler while other threads are stopped, so it may read shared harness state freely.
-func Block(label string, cond func() bool, wakeAtNs int64) { block(label, cond, wakeAtNs, false) }
+func Block(label string, cond func() bool, wakeAtNs int64) {
+	block(label, cond, wakeAtNs, false)
+	HBAcquireAll() // Block / BlockH are the harness's waits: the cause of what it waited for is ordered before what it does next
+}
+
+// BlockLib is Block for waits of the code under test itself (the shims): no happens-before edge is implied.
+func BlockLib(label string, cond func() bool, wakeAtNs int64) { block(label, cond, wakeAtNs, false) }
 
 // BlockH is Block for waits of the test harness itself (client-side deadlines, handler sleeps): "time first" never
 // jumps to them.
-func BlockH(label string, cond func() bool, wakeAtNs int64) { block(label, cond, wakeAtNs, true) }
+func BlockH(label string, cond func() bool, wakeAtNs int64) {
+	block(label, cond, wakeAtNs, true)
+	HBAcquireAll()
+}
 
 func block(label string, cond func() bool, wakeAtNs int64, harness bool) {
 	sc := s
@@ -577,6 +611,7 @@ func Quiesce() {
 	sc.step(t, "block:quiesce")
 	sc.yield(t, "quiesce")
 	t.state, t.cond, t.wakeAt, t.quiesce = stRunnable, nil, 0, false
+	HBAcquireAll()
 }
 
 // Go starts f as a new thread of the execution (the transformer routes every go statement here). The new thread is
@@ -610,7 +645,7 @@ func Spawn(name string, f func(), system bool) {
 	if name == "" {
 		name = fmt.Sprintf("go%d", len(sc.threads))
 	}
-	t := sc.newThread(name, f, system)
+	t := sc.newThread(name, f, system, sc.me())
 	if sc.eagerFor != nil {
 		return // nested spawn inside an eager segment: the grandchild starts when it is first scheduled
 	}
@@ -656,6 +691,7 @@ func Recv2[T any](ch <-chan T) (T, bool) {
 		select {
 		case v, ok := <-ch:
 			Signal()
+			HBChanRecv(ch)
 			return v, ok
 		default:
 		}
@@ -672,6 +708,7 @@ func Send[T any](ch chan<- T, v T) {
 		return
 	}
 	Point("chan.send")
+	HBChanSend(ch)
 	for {
 		select {
 		case ch <- v:
@@ -690,6 +727,7 @@ func Send[T any](ch chan<- T, v T) {
 func Close[T any](ch chan<- T) {
 	if s != nil {
 		Point("chan.close")
+		HBChanClose(ch)
 	}
 	close(ch)
 	Signal()
@@ -713,7 +751,7 @@ func WaitExternal() {
 		return
 	}
 	g := sc.gen
-	Block("select", func() bool { return sc.gen != g }, 0)
+	block("select", func() bool { return sc.gen != g }, 0, false)
 }
 
 func sleep(d time.Duration) {
